@@ -267,6 +267,88 @@ def run(ck):
         kind("TS AAC config", len(ts))
         ck.stream("ts_aac_config", ts, None, "tsaac", "C07_alive", nontrivial=lambda c: len(c[0]) < 2, compare=False,
                   sig=lambda c, e, o: "contain-ts-aac", sample=2)
+        # ---- converters: FLV muxer loop + packetizers, TS packetizers, hostile metadata --------------
+        def conv_frames(n):
+            out = []
+            for _ in range(n):
+                k = rng.random()
+                if k < 0.55:
+                    b0 = rng.choice([0x65, 0x41, 0x61, 0x67, 0x68, 0x09, 0x06, 0x0c, 0x26, 0x40, 0x42, 0x44, 0x02, rng.randrange(256)])
+                    out.append([0, bytes([b0]) + c06.rbytes(rng, rng.choice([0, 1, 3, 20, 200]))])
+                elif k < 0.9:
+                    out.append([1, c06.rbytes(rng, rng.choice([0, 0, 1, 7, 90]))])
+                else:
+                    out.append([rng.choice([2, 3, 5, -1]), c06.rbytes(rng, rng.choice([0, 2]))])
+            return out
+        def conv_cfgs():
+            good_sps, good_pps = bytes([0x67, 0x42, 0x00, 0x1f, 0x95, 0xa8]), bytes([0x68, 0xce, 0x3c, 0x80])
+            cfgs = []
+            for sps in (good_sps, b"", b"\x67", b"\x67\x42", b"\x67\x42\x00", b"\x67\x42\x00\x1f", c06.rbytes(rng, 3), c06.rbytes(rng, 9)):
+                for pps in (good_pps, b"", b"\x68"):
+                    cfgs.append([0, sps, pps, b""])
+            hv = [bytes([0x40, 1, 0x0c, 1, 0xff, 0xff, 1, 0x60, 0, 0, 3, 0, 0x90, 0, 0, 3, 0, 0, 3, 0, 0x5d, 0x95, 0x98, 9]),
+                  b"", b"\x40", b"\x40\x01", c06.rbytes(rng, 5), c06.rbytes(rng, 30), bytes([0x40, 1]) + b"\xff" * 40]
+            hs = [bytes([0x42, 1, 1, 1, 0x60, 0, 0, 3, 0, 0x90, 0, 0, 3, 0, 0, 3, 0, 0x5d, 0xa0, 2, 0x80, 0x80, 0x2d, 0x16, 0x59, 0x59, 0xa4, 0x93, 0x2b, 0xc0, 0x40, 0x40, 0, 0, 3, 0, 0x40, 0, 0, 6, 0x42]),
+                  b"", b"\x42", b"\x42\x01\x01", c06.rbytes(rng, 7), c06.rbytes(rng, 40), bytes([0x42, 1]) + b"\xff" * 60, bytes([0x42, 1]) + b"\x00" * 60]
+            for vps in hv:
+                for sps in rng.sample(hs, 4):
+                    cfgs.append([1, sps, rng.choice([bytes([0x44, 1, 0xc1, 0x72, 0xb4, 0x62, 0x40]), b"", b"\x44"]), vps])
+            return cfgs
+        ASCS = [b"\x12\x10", b"", b"\x00", b"\xff", b"\x12", b"\xf8\x00", b"\x00\x00", b"\xff\xff\xff\xff", b"\x13\x90", b"\x2b\x92\x08\x00"]
+        cc = []
+        for cfg in conv_cfgs():
+            for _ in range(6 if T else 1):
+                aac = rng.random() < 0.6
+                cc.append([cfg[0], cfg[1], cfg[2], cfg[3], aac, rng.choice(ASCS) if aac else b"", conv_frames(rng.randint(1, 8))])
+        kind("FLV converter (metadata x frames)", len(cc))
+        ck.stream("flv_conv", cc, None, "flvconv", "C07_flvconv_ok", nontrivial=lambda c: len(c[6]) >= 2, compare=False,
+                  sig=lambda c, e, o: "contain-flv-conv", sample=2, timeout=1500)
+        tc = [[0, rng.choice([b"", b"\x67", bytes([0x67, 0x42, 0, 0x1f, 1]), c06.rbytes(rng, 12)]),
+               rng.choice([b"", b"\x68\x01", c06.rbytes(rng, 4)]), b"", 1, rng.choice(ASCS + [c06.rbytes(rng, rng.randint(1, 6))]),
+               conv_frames(rng.randint(1, 10))] for _ in range(600 if T else 80)]
+        kind("TS converter (metadata x frames)", len(tc))
+        ck.stream("ts_conv", tc, None, "tsconv", "C07_tsconv_ok", nontrivial=lambda c: len(c[6]) >= 2, compare=False,
+                  sig=lambda c, e, o: "contain-ts-conv", sample=2, timeout=1500)
+        # ---- isolation: two streams + two receive loops in one process, faults into one of them -------
+        def rtp_frame(ch, payload):
+            # RTP timestamps not ahead of the stream clock: a packet from the far future that looks like a
+            # key frame makes the HLS segmenter wait for the clock to catch up (same class as the known finding)
+            hdr = bytes([0x80, 96 if ch == 0 else 97]) + rng.randrange(65536).to_bytes(2, "big") + \
+                  rng.choice([0, 1, 90000, 44100]).to_bytes(4, "big") + b"\x01\x02\x03\x04"
+            return reframe(ch, hdr + payload)
+        faults = []
+        joinshape = [bytes([0x78, 0, 1]), bytes([0x78, 0, 1, 0x65, 0]), bytes([0x78, 0, 9, 0x65, 0]), bytes([0x78, 0xff, 0xff, 0x41]),
+                     bytes([0x79, 0, 1]), bytes([0x7a, 0, 0, 1]), bytes([0x7b, 0, 1, 2]), bytes([0x18, 0, 2, 0x67]),
+                     bytes([0x78]), bytes([0x78, 0]), bytes([0x7c]), bytes([0x7c, 0x85]), bytes([0x7d, 0x45, 1])]
+        for pl in joinshape:
+            faults.append(rtp_frame(0, pl))                      # classification of a hostile aggregation packet (join section)
+        some = base[0][4] if base else []
+        good_v = next((e[4] for (cd, _, _, _, evs, _) in base if cd == H264 for e in evs if e[0] == 4), bytes([0x41, 1, 2, 3]))
+        good_a = next((e[4] for (cd, _, _, _, evs, _) in base if cd == AAC for e in evs if e[0] == 4), bytes([0, 16, 0, 16, 1, 2]))
+        for pl in bad_payloads(rng, H264, good_v):
+            faults.append(rtp_frame(0, pl))
+        for pl in bad_payloads(rng, AAC, good_a):
+            faults.append(rtp_frame(2, pl))
+        for d in bad_rtcp(rng):
+            faults.append(reframe(rng.choice([1, 3]), d))
+        faults += bad_frames(rng)
+        for _ in range(40):                                      # several faults at once
+            faults.append(b"".join(rng.sample(faults, 3)))
+        faults = [calm(f) for f in faults]
+        rng.shuffle(faults)
+        if not T:
+            faults = joinshape_first(faults, [calm(rtp_frame(0, pl)) for pl in joinshape], 420)
+        per = 140
+        iso = [[1, faults[i:i + per]] for i in range(0, len(faults), per)]
+        kind("isolation fault (two streams, two sessions)", len(faults))
+        ck.extra["isolation_faults"] = len(faults)
+        ck.stream("isolation", iso, None, "iso", "C07_iso_ok", nontrivial=lambda c: len(c[1]) >= 2, compare=False,
+                  sig=lambda c, e, o: "contain-isolation", sample=1, timeout=1500)
+        # known finding, replayed every run: no sender report has pinned the clock yet and a forged one arrives
+        forged = reframe(1, bytes([0x80, 200, 0, 6]) + bytes(12) + (2**31).to_bytes(4, "big") + bytes(8))
+        ck.stream("isolation_unpinned", [[0, [forged]]], None, "iso", "C07_iso_ok", nontrivial=lambda c: True, compare=False,
+                  sig=lambda c, e, o: "hls-stall-after-clock-rebase" if vlib.vparse(o) == [[0, 1, 0, 1, 1]] else "contain-isolation-unpinned",
+                  sample=1, timeout=300)
     except vlib.Broken as b:
         ck.broken.append(b)
     ck.extra["fault_kinds"] = kinds
@@ -290,6 +372,23 @@ def run(ck):
                      "metadata ready (parameter sets known from the SDP) for the resynchronisation theorem",
                      "the second-stream / second-session isolation of the property statement is covered by the demuxer being "
                      "per-stream state only (no shared mutable state in av/format/rtp); it is not replayed here"])
+
+def calm(data):
+    """zero the RTP timestamp of every media-channel frame in a run of interleaved frames"""
+    out, i = bytearray(), 0
+    while i + 4 <= len(data) and data[i] == 0x24:
+        n = int.from_bytes(data[i + 2:i + 4], "big")
+        fr = bytearray(data[i:i + 4 + n])
+        if fr[1] in (0, 2) and n >= 8:
+            fr[8:12] = b"\x00\x00\x00\x00"
+        out += fr
+        i += 4 + n
+    return bytes(out) + data[i:]
+
+def joinshape_first(faults, first, limit):
+    """quick tier: keep the join-section shapes, fill up with a sample of the rest"""
+    rest = [f for f in faults if f not in first]
+    return first + rest[:max(0, limit - len(first))]
 
 def clearly_bad(frame):
     """frames that rtp.ReadPacket certainly rejects: unknown channel, or a media-channel RTP header
